@@ -314,6 +314,22 @@ impl Receiver {
             .map(|f| f.fdt_instance_id)
             .unwrap();
 
+        // A packet that announces another FEC OTI / transfer length than the instance under
+        // reception with the same ID does not belong to it (a stale or forged packet started that
+        // instance): start over instead of feeding the packets of one instance to the other for ever
+        if let Some(fdt_receiver) = self.fdt_receivers.get(&fdt_instance_id) {
+            if fdt_receiver.state() == fdtreceiver::FDTState::Receiving
+                && fdt_receiver.fti_conflicts(alc_pkt)
+            {
+                log::warn!(
+                    "TSI={} FDT {} restarted, FEC OTI has changed",
+                    self.tsi,
+                    fdt_instance_id
+                );
+                self.fdt_receivers.remove(&fdt_instance_id);
+            }
+        }
+
         if self.config.object_receive_once && self.is_fdt_received(fdt_instance_id) {
             return Ok(());
         }
